@@ -89,6 +89,9 @@ func schedDeadline(kind string, rng *vrng, base time.Time, g, i, per int) (time.
 		return base.Add(time.Duration(5+per-i) * time.Millisecond), "decreasing", false
 	case "farfirst":
 		if i < per/4 {
+			if rng.chance(30) { // centuries ahead: beyond what an int64 of nanoseconds since 1970 can hold
+				return time.Date(2300+rng.intn(500), time.Month(1+rng.intn(12)), 1+rng.intn(28), 0, 0, 0, 0, time.UTC), "far", true
+			}
 			return base.Add(time.Hour + time.Duration(rng.intn(1000))*time.Second), "far", true
 		}
 		return base.Add(time.Duration(10+rng.intn(30)) * time.Millisecond), "near-after-far", false
@@ -127,6 +130,9 @@ func schedPlan(sc schedScenario, rng *vrng, phases int) func(ph int, base time.T
 	farAt := func(base time.Time) time.Time {
 		if sc.Kind == "staged-secs" {
 			return base.Add(2*time.Second + time.Duration(rng.intn(4000))*time.Millisecond)
+		}
+		if rng.chance(25) {
+			return time.Date(2300+rng.intn(500), time.Month(1+rng.intn(12)), 1+rng.intn(28), 0, 0, 0, 0, time.UTC)
 		}
 		return base.Add(time.Hour + time.Duration(rng.intn(1000))*time.Second)
 	}
